@@ -1035,50 +1035,46 @@ impl Translator {
                 //     .map(|(i, _)| make_label(&format!("arm{i}")))
                 //     .collect::<Vec<_>>();
                 let mut arm_labels = vec![];
-                let mut or_pat_decisions = HashSet::default();
                 for (i, arm) in arms.iter().enumerate() {
+                    // An arm with or-patterns is tested once for every combination of their
+                    // alternatives. The or-patterns that have switched to their right alternative
+                    // are in this set; it steps through the combinations like a binary counter.
+                    let mut or_pat_decisions = HashSet::default();
                     loop {
-                        let mut went_left = false;
-                        self.traverse_arm_pat(
-                            &arm.pat,
-                            mono,
-                            &mut or_pat_decisions,
-                            &mut went_left,
-                        );
+                        // the or-patterns reached under the current decisions, left to right
+                        let mut or_pats = vec![];
+                        self.traverse_arm_pat(&arm.pat, mono, &or_pat_decisions, &mut or_pats);
 
                         let arm_label = make_label(&format!("arm{i}"));
-                        arm_labels.push((arm_label.clone(), arm.clone()));
+                        // the bindings must come from the alternatives that matched
+                        arm_labels.push((arm_label.clone(), arm.clone(), or_pat_decisions.clone()));
 
                         // duplicate the scrutinee before doing a comparison
                         self.emit(st, Instr::Duplicate);
-                        self.translate_pat_comparison(
-                            &ty,
-                            &arm.pat,
-                            st,
-                            mono,
-                            &mut or_pat_decisions,
-                        );
+                        self.translate_pat_comparison(&ty, &arm.pat, st, mono, &or_pat_decisions);
                         self.emit(st, Instr::JumpIf(arm_label));
 
-                        if !went_left {
+                        // the last or-pattern still on its left alternative moves on to its
+                        // right alternative and the ones after it start over
+                        let Some(last_left) = or_pats
+                            .iter()
+                            .rposition(|or_pat| !or_pat_decisions.contains(or_pat))
+                        else {
                             break;
+                        };
+                        or_pat_decisions.insert(or_pats[last_left]);
+                        for or_pat in &or_pats[last_left + 1..] {
+                            or_pat_decisions.remove(or_pat);
                         }
                     }
                 }
-                let mut or_pat_decisions = HashSet::default();
                 // let mut label_index = 0;
-                for (i, (arm_label, arm)) in arm_labels.iter().enumerate() {
+                for (i, (arm_label, arm, or_pat_decisions)) in arm_labels.iter().enumerate() {
                     // let arm_label = &arm_labels[label_index];
                     // label_index += 1;
                     self.emit(st, arm_label.clone());
 
-                    self.handle_pat_binding(
-                        &arm.pat,
-                        offset_table,
-                        st,
-                        mono,
-                        &mut or_pat_decisions,
-                    );
+                    self.handle_pat_binding(&arm.pat, offset_table, st, mono, or_pat_decisions);
 
                     self.translate_stmt(&arm.stmt, true, offset_table, mono, st);
                     if i != arm_labels.len() - 1 {
@@ -1973,7 +1969,7 @@ impl Translator {
         pat: &Rc<Pat>,
         st: &mut TranslatorState,
         mono: &MonomorphEnv,
-        or_pat_decisions: &mut HashSet<NodeId>,
+        or_pat_decisions: &HashSet<NodeId>,
     ) {
         match &*pat.kind {
             PatKind::Wildcard | PatKind::Binding(_) | PatKind::Void => {
@@ -1990,7 +1986,6 @@ impl Translator {
                 if !or_pat_decisions.contains(&pat.id) {
                     let left_ty = self.get_ty(mono, left.node()).unwrap();
                     self.translate_pat_comparison(&left_ty, left, st, mono, or_pat_decisions);
-                    or_pat_decisions.insert(pat.id);
                 } else {
                     let right_ty = self.get_ty(mono, right.node()).unwrap();
                     self.translate_pat_comparison(&right_ty, right, st, mono, or_pat_decisions);
@@ -2151,7 +2146,7 @@ impl Translator {
         pats: &[Rc<Pat>],
         st: &mut TranslatorState,
         mono: &MonomorphEnv,
-        or_pat_decisions: &mut HashSet<NodeId>,
+        or_pat_decisions: &HashSet<NodeId>,
     ) {
         // a product with no fields can only match
         if pats.is_empty() {
@@ -2266,8 +2261,8 @@ impl Translator {
         match &*stmt.kind {
             StmtKind::Let(_, pat, expr) => {
                 self.translate_expr(expr, offset_table, mono, st);
-                let mut or_pat_decisions = HashSet::default();
-                self.handle_pat_binding(&pat.0, offset_table, st, mono, &mut or_pat_decisions);
+                let or_pat_decisions = HashSet::default();
+                self.handle_pat_binding(&pat.0, offset_table, st, mono, &or_pat_decisions);
             }
             StmtKind::Assign(expr1, assign_op, rvalue) => {
                 let rvalue_ty = self.get_ty(mono, rvalue.node()).unwrap();
@@ -2586,8 +2581,8 @@ impl Translator {
                     // a void item is not bound to anything; discard the variant's dummy payload
                     self.emit(st, Instr::Pop);
                 } else {
-                    let mut or_pat_decisions = HashSet::default();
-                    self.handle_pat_binding(pat, offset_table, st, mono, &mut or_pat_decisions);
+                    let or_pat_decisions = HashSet::default();
+                    self.handle_pat_binding(pat, offset_table, st, mono, &or_pat_decisions);
                 }
                 st.loop_stack.push(EnclosingLoop {
                     start_label: start_label.clone(),
@@ -2748,18 +2743,18 @@ impl Translator {
         &self,
         pat: &Rc<Pat>,
         mono: &MonomorphEnv,
-        or_pat_decisions: &mut HashSet<NodeId>,
-        went_left: &mut bool,
+        or_pat_decisions: &HashSet<NodeId>,
+        or_pats: &mut Vec<NodeId>,
     ) {
         match &*pat.kind {
             PatKind::Tuple(pats) => {
                 for pat in pats.iter() {
-                    self.traverse_arm_pat(pat, mono, or_pat_decisions, went_left);
+                    self.traverse_arm_pat(pat, mono, or_pat_decisions, or_pats);
                 }
             }
             PatKind::Struct(name, field_pats) => {
                 for pat in self.struct_pat_fields_in_order(name, field_pats) {
-                    self.traverse_arm_pat(&pat, mono, or_pat_decisions, went_left);
+                    self.traverse_arm_pat(&pat, mono, or_pat_decisions, or_pats);
                 }
             }
             PatKind::Variant(_prefixes, tag, inner) => match inner {
@@ -2768,7 +2763,7 @@ impl Translator {
                 Some(PatVariantData::Positional(inner)) => {
                     let inner_ty = self.get_ty(mono, inner.node()).unwrap();
                     if inner_ty != SolvedType::Void {
-                        self.traverse_arm_pat(inner, mono, or_pat_decisions, went_left);
+                        self.traverse_arm_pat(inner, mono, or_pat_decisions, or_pats);
                     }
                 }
                 Some(PatVariantData::Named(named)) => {
@@ -2779,17 +2774,17 @@ impl Translator {
                         return;
                     }
                     for pat in pats {
-                        self.traverse_arm_pat(&pat, mono, or_pat_decisions, went_left);
+                        self.traverse_arm_pat(&pat, mono, or_pat_decisions, or_pats);
                     }
                 }
                 None => {}
             },
             PatKind::Or(left, right) => {
+                or_pats.push(pat.id);
                 if !or_pat_decisions.contains(&pat.id) {
-                    self.traverse_arm_pat(left, mono, or_pat_decisions, went_left);
-                    *went_left = true;
+                    self.traverse_arm_pat(left, mono, or_pat_decisions, or_pats);
                 } else {
-                    self.traverse_arm_pat(right, mono, or_pat_decisions, went_left);
+                    self.traverse_arm_pat(right, mono, or_pat_decisions, or_pats);
                 }
             }
             PatKind::Binding(_)
@@ -2808,7 +2803,7 @@ impl Translator {
         locals: &OffsetTable,
         st: &mut TranslatorState,
         mono: &MonomorphEnv,
-        or_pat_decisions: &mut HashSet<NodeId>,
+        or_pat_decisions: &HashSet<NodeId>,
     ) {
         match &*pat.kind {
             PatKind::Binding(_) => {
@@ -2887,7 +2882,6 @@ impl Translator {
             PatKind::Or(left, right) => {
                 if !or_pat_decisions.contains(&pat.id) {
                     self.handle_pat_binding(left, locals, st, mono, or_pat_decisions);
-                    or_pat_decisions.insert(pat.id);
                 } else {
                     self.handle_pat_binding(right, locals, st, mono, or_pat_decisions);
                 }
